@@ -46,3 +46,33 @@ Proof.
   - eexists. vm_compute. reflexivity.
   - vm_compute. intros [H|[H|[H|[]]]]; discriminate.
 Qed.
+
+(* D1f  WEEKLY + BYEASTER across the year end: in the week that straddles 1 January the easter mask
+   of the old year is used.
+   rrule(WEEKLY, dtstart=datetime(2016,12,1), byeaster=(-105, 0), until=datetime(2017,2,1)): Easter 2017 is
+   16 April, minus 105 days = Sunday 1 January 2017, inside the Monday-week 2016-12-26..2017-01-01
+   that the code expands with the masks of 2016 -- never yielded (DAILY yields it). *)
+Definition raw_easter : raw :=
+  mkRaw WEEKLY false 2016 12 1 0 0 0 1 0 None (Some (ord_of_ymd 2017 2 1, 0, 0)) false
+        None None None None (Some [-105; 0]) None None None None None.
+
+Theorem rrule_iter_refuted_easter_week : exists r x,
+  spec_wf r = true /\ r_freq r = WEEKLY /\ r_byeaster r = Some [-105; 0] /\
+  spec_iter r 100 20 = ([x], SExhausted) /\
+  model_run r 100 30 = Some ([], TUntil).
+Proof.
+  exists raw_easter, (ord_of_ymd 2017 1 1, 0). vm_compute. repeat split; reflexivity.
+Qed.
+
+(* year 1: rrule(YEARLY, dtstart=datetime(1,1,1), wkst=TU, byweekno=1, until=datetime(3,1,1)) --
+   rebuild() evaluates datetime.date(0, 1, 1): ValueError at the first next(), although the rule
+   has occurrences (F-C01-year1-weekno) *)
+Definition raw_year1 : raw :=
+  mkRaw YEARLY false 1 1 1 0 0 0 1 1 None (Some (ord_of_ymd 3 1 1, 0, 0)) false
+        None None None None None (Some [1]) None None None None.
+
+Theorem rrule_iter_refuted_year1 : exists r x rest,
+  spec_wf r = true /\ r_y r = 1 /\
+  fst (spec_iter r 100 10) = x :: rest /\
+  model_run r 100 10 = Some ([], TRaised EValue).
+Proof. exists raw_year1. eexists (_, _). eexists. vm_compute. repeat split; reflexivity. Qed.
